@@ -131,6 +131,24 @@ Theorem C01_remap_preserves_valid_batch :
 Proof. exact remap_valid_batch. Qed.
 Print Assumptions C01_remap_preserves_valid_batch.
 
+
+(* TypiClust AS WRITTEN violates C01 (recorded findings; the model is tied to the code by exact
+   correspondence, duplicates and the UnboundLocalError included): the sample is chosen by an
+   unmasked rand_argmax over typicality[mapping], so once every cluster is covered an earlier pick is
+   returned again; and `cluster_sizes[cluster_id] = 0` has no cluster_id when every cluster is covered
+   from the start *)
+Theorem C01_typiclust_duplicates_refuted :
+  exists picks, option_map (map fst)
+    (typiclust 4 [1; 2; 3] [0; 1; 1; 1] (fun c j => 5%Z) 1%Z (-1)%Z 2 [0; 3]%Z [1; 1; 9; 1; 1; 9; 1; 1; 9; 1; 1]%Z) = Some picks
+  /\ ~ NoDup picks.
+Proof. exact typiclust_duplicates_refuted. Qed.
+Print Assumptions C01_typiclust_duplicates_refuted.
+
+Theorem C01_typiclust_unbound_refuted :
+  typiclust 3 [1; 2] [0; 0; 0] (fun c j => 5%Z) 1%Z (-1)%Z 1 [0; 0]%Z [1; 1; 1; 1]%Z = None.
+Proof. exact typiclust_unbound_refuted. Qed.
+Print Assumptions C01_typiclust_unbound_refuted.
+
 (* non-vacuity: a 6-sample pool, two labeled samples, ties among the utilities *)
 Example C01_nonvacuous :
   let lab := [true; false; false; true; false; false] in
